@@ -511,10 +511,6 @@ func c04Cases(c runCfg) ([]*scratch.Pkg, []string, map[string]interface{}) {
 				if strings.HasSuffix(cl.loc, "arr") {
 					sc = &dialect.Schema{Type: "array", Items: sc}
 				}
-				if cl.via == "schemaref" && (sc.Format == "date-time" || sc.Items != nil && sc.Items.Format == "date-time") {
-					// (a component schema of format date-time does not compile, D31: a C01 cell)
-					cl.via = "inline"
-				}
 				if cl.via == "schemaref" {
 					cn := fmt.Sprintf("S%d%d", opi, k)
 					sp.CompSchemas = append(sp.CompSchemas, dialect.Prop{Name: cn, Schema: sc})
